@@ -31,7 +31,7 @@ def plan(tier, seed):
             shape = [int(rng.integers(1, 7)) for _ in range(nd)]
             if (nd >= 2 and rng.uniform() < 0.3) or (fun in ('quantile', 'lorenz') and rng.uniform() < 0.8):
                 shape[-1] = int(rng.integers(8, 41))
-            cases.append(dict(fun=fun, shape=shape, content=pick(['random', 'random', 'ties', 'silent', 'zeros', 'huge', 'tiny', 'tiny']), keepdims=bool(rng.integers(0, 2)),
+            cases.append(dict(fun=fun, shape=shape, content=pick(['random', 'random', 'ties', 'silent', 'zeros', 'huge', 'tiny', 'tiny']) if not (fun == 'lorenz' and rng.uniform() < 0.15) else 'dyadic', keepdims=bool(rng.integers(0, 2)),
                               use_sensor=bool(rng.integers(0, 2)), rs=[seed, 18, i]))
             i += 1
     return cases
@@ -274,6 +274,18 @@ def run_quantile(case, R):
     R.check('C18.quantile', ok, 'quantile/value', f'quantile mask differs from the definition at {int((np.abs(got - ref) > 1e-12).sum()) if got.shape == ref.shape else "shape"} points (n={npts})', **info)
     lv = np.unique(np.round(got, 12))
     R.check('C18.quantile', set(lv.tolist()) <= {round(0.5 + w / 2, 12), round(0.5 - w / 2, 12)}, 'quantile/levels', f'levels {lv.tolist()[:4]} are not 0.5 +/- weight/2', **info)
+    # a tuple / list of quantiles (the default is a pair) stacks the masks of its members, with the same levels and options
+    q2 = float(rng.choice([0.1, -0.9, 0.5, -0.25]))
+    qs = (q, q2) if rng.uniform() < 0.5 else [q2, q]
+    try:
+        both = np.asarray(mm.quantile_mask(X, quantile=qs, axis=axis_arg, weight=w))
+        single = [np.asarray(mm.quantile_mask(X, quantile=qq, axis=axis_arg, weight=w)) for qq in qs]
+        okq = both.shape == (2, *got.shape) and all(np.array_equal(both[i], single[i]) for i in range(2))
+        R.check('C18.quantile', okq, 'quantile/tuple', f'quantile_mask(quantile={qs}, weight={w}) is not the stack of the masks of its members (shape {both.shape})', **info)
+    except Exception as e:
+        if not instr.is_library_exception(e):
+            raise
+        R.fail('C18.quantile', 'quantile/raised/tuple', f'quantile_mask raised {type(e).__name__} for quantile={qs}: {str(e)[:100]}', **info)
     if npts >= 8:
         R.mark_nontrivial('quantile', nd, k == nd, q >= 0, case['content'])
     R.sample(info)
@@ -293,6 +305,22 @@ def run_lorenz(case, R):
         sen = int(rng.choice(remaining))
     frac = float(rng.choice([0.98, 0.9, 0.5, 0.3]))
     w = float(rng.choice([0.999, 1.0, 0.6]))
+    dyadic = case['content'] == 'dyadic'
+    if dyadic:
+        # pooled powers 2^-1, 2^-2, ..., 2^-(n-1), 2^-(n-1) (two sensors: even exponents on one, odd ones split over both) in random order:
+        # total exactly one, every cumulative share and a dyadic fraction are exact binary numbers, so a share EQUAL to the fraction
+        # exists and "stays below" (strict) is decided without rounding
+        n = int(rng.integers(8, 21))
+        j = np.concatenate([np.arange(1, n), [n - 1]])[rng.permutation(n)]
+        amp = np.where(j % 2 == 0, 2.0 ** (-j // 2), 2.0 ** (-(j + 1) // 2))
+        two = np.stack([amp, np.where(j % 2 == 0, 0.0, amp)])                     # (2, n)
+        two = two * np.array([1, 1j, -1, -1j])[rng.integers(0, 4, size=two.shape)]   # phases that keep |.|^2 exact
+        if rng.uniform() < 0.5:
+            X, shape, axes, sen = two, [2, n], [0 + 1], 0
+        else:
+            X, shape, axes, sen = two.T.copy(), [n, 2], [0], 1
+        nd, k, remaining = 2, 1, [sen]
+        frac = float(rng.choice([0.75, 0.875, 0.9375]))
     kw = dict(axis=tuple(axes) if k > 1 or rng.uniform() < 0.5 else axes[0], lorenz_fraction=frac, weight=w)
     if sen is not None:
         kw.update(sensor_axis=sen, keepdims=case['keepdims'])
@@ -315,7 +343,7 @@ def run_lorenz(case, R):
         share = np.cumsum(srt) / tot
         strongest = srt[share < frac]
         thr = strongest.min()
-        if np.any((np.abs(share - frac) < 1e-12)):
+        if np.any((np.abs(share - frac) < 1e-12)) and not dyadic:
             R.undecided('C18.lorenz', 'cumulative share within rounding of the fraction')
             return
         ref[tuple(sl)] = np.where(vals > thr, 0.5 + w / 2, 0.5 - w / 2).reshape(P[tuple(sl)].shape)
